@@ -75,12 +75,12 @@ pub(crate) fn multi_results(s: &MultiShared) -> (usize, [(i32, u32); 4]) {
     let mut out = [(0, 0); 4];
     let n = match &g.status {
         Status::Running { results } | Status::Done { results } => {
-            let mut i = 0;
-            while i < results.0.len() && i < 4 {
-                out[i] = cr_parts(results.0[i]);
-                i += 1;
-            }
-            results.0.len()
+            let n = results.0.len();
+            if n > 0 { out[0] = cr_parts(results.0[0]); }
+            if n > 1 { out[1] = cr_parts(results.0[1]); }
+            if n > 2 { out[2] = cr_parts(results.0[2]); }
+            if n > 3 { out[3] = cr_parts(results.0[3]); }
+            n
         }
         _ => 0,
     };
@@ -140,10 +140,13 @@ pub(crate) fn force_running<R, A>(s: &mut State<Singleshot, R, A>, res: i32, fla
 }
 
 pub(crate) fn force_multi<R, A>(s: &mut State<Multishot, R, A>, done: bool, results: &[(i32, u32)], waker: Option<task::Waker>) {
+    // unrolled (no harness loop: keeps the global unwind bound at what a10 needs)
     let mut v = Vec::with_capacity(8);
-    for (r, f) in results {
-        v.push(cr(*r, *f));
-    }
+    if results.len() > 0 { v.push(cr(results[0].0, results[0].1)); }
+    if results.len() > 1 { v.push(cr(results[1].0, results[1].1)); }
+    if results.len() > 2 { v.push(cr(results[2].0, results[2].1)); }
+    if results.len() > 3 { v.push(cr(results[3].0, results[3].1)); }
+    assert!(results.len() <= 4);
     let sh = shared_mut(s);
     sh.status = if done { Status::Done { results: Multishot(v) } } else { Status::Running { results: Multishot(v) } };
     sh.waker = waker;
@@ -339,4 +342,8 @@ where
 /// Address of the resources stored in an operation's state.
 pub(crate) fn resources_addr<T, R, A>(s: &State<T, R, A>) -> usize {
     unsafe { s.data.as_ref().tail.resources.get().addr() }
+}
+
+pub(crate) fn completion_flags(bits: u32) -> CompletionFlags {
+    CompletionFlags(bits)
 }
